@@ -21,7 +21,8 @@ RULE = ("exhaustive product limit x offset x setter x ORDER BY x position x dial
         "surrounding clauses where/group by/join and ORDER BYs that belong to nested queries (IN subquery, window, CTE body); every "
         "container carries a value of its own behind the embedded query; set operations are ordered themselves or through their first "
         "operand only (thorough adds distinct). "
-        "non-trivial = limit or offset present; distinct = the full combination")
+        "non-trivial = limit or offset present; distinct = the full combination"
+        " also: UPDATE with row limits, DISTINCT+TOP order, locking clause after the row limit (MySQL, Oracle), replace_table after pagination, paginated first operands of set operations. (DESIGN.md 6a)")
 ASSUMPTIONS = [
     "row-limit grammar per dialect: SQLite/MySQL LIMIT n [OFFSET m]; PostgreSQL and the generic class [LIMIT n] [OFFSET m]; "
     "SQL Server ORDER BY .. OFFSET m ROWS [FETCH NEXT n ROWS ONLY] (ORDER BY mandatory, no TOP alongside); Oracle "
